@@ -35,9 +35,10 @@ struct scq { index_t _head; int64_t _threshold; index_t _tail; uint64_t _data[N]
  *   position p = H+d, d <  cnt : slot(p) = (cycle(p), any safe bit, vals[d])
  *   position p = H+d, d >= cnt : slot(p) = (a cycle older than cycle(p) or the initial all-ones word, any safe bit, bottom)
  * threshold = 3*CAP-1 when cnt > 0, in [-1, 3*CAP-1] otherwise. */
-uint64_t in_H; unsigned in_cnt, in_gap; _Bool in_fin; int64_t in_th; uint64_t in_val[CAP]; uint64_t in_oc[N]; _Bool in_safe[N]; uint64_t in_v;
+unsigned in_cap, in_op, in_finalizable; uint64_t in_H; unsigned in_cnt, in_gap; _Bool in_fin; int64_t in_th; uint64_t in_val[CAP]; uint64_t in_oc[N]; _Bool in_safe[N]; uint64_t in_v;
 static size_t RS(void) { return scq_calc_remap_shift(CAP); }
 static void havoc_inputs(void) {
+  in_cap = CAP; in_finalizable = Finalizable;
   in_H = nondet_u64(); XV_ASSUME(in_H < MAXPOS);
   in_cnt = nondet_uint(); XV_ASSUME(in_cnt <= CAP);
   in_fin = nondet_bool(); in_gap = nondet_uint(); XV_ASSUME(in_gap <= G); if (!in_fin) XV_ASSUME(in_gap == 0);
@@ -46,16 +47,25 @@ static void havoc_inputs(void) {
   for (unsigned i = 0; i < CAP; i++) { in_val[i] = nondet_u64(); XV_ASSUME(in_val[i] < CAP); }
   for (unsigned d = 0; d < N; d++) { in_oc[d] = nondet_u64(); in_safe[d] = nondet_bool(); }
 }
+/* position (mod N) that remap_index sends to slot s: found by running the real remap_index on the N concrete positions;
+ * every use below re-checks remap_index(position) == s (MODEL assertion), so nothing is assumed about remap_index here */
+static unsigned pos_of_slot(unsigned s) {
+  size_t rs = RS();
+  for (unsigned j = 0; j < N; j++) if (scq_remap_index((index_t)j << 1, rs, N) == s) return j;
+  return N;
+}
 static void build(struct scq* q) {
   size_t rs = RS();
   q->_head = in_H << 1; q->_tail = ((in_H + in_cnt + in_gap) << 1) | (in_fin ? 1 : 0); q->_threshold = in_th; q->xv_alloc = N;
-  for (unsigned d = 0; d < N; d++) {
-    index_t pos2 = (in_H + d) << 1, slot = scq_remap_index(pos2, rs, N), cyc = pos2 | MASK;
-    if (d < in_cnt) q->_data[slot] = (cyc & ~MASK) | (in_safe[d] ? N : 0) | in_val[d];
+  for (unsigned s = 0; s < N; s++) {           /* slot s belongs to the position H+d, d = (pos_of_slot(s) - H) mod N */
+    unsigned d = (unsigned)((pos_of_slot(s) - in_H) & (N - 1));
+    index_t pos2 = (in_H + d) << 1, cyc = pos2 | MASK;
+    XV_MODEL_ASSERT("build.slot", scq_remap_index(pos2, rs, N) == s);
+    if (d < in_cnt) q->_data[s] = (cyc & ~MASK) | (in_safe[s] ? N : 0) | in_val[d];
     else {
-      uint64_t oc = in_oc[d];
+      uint64_t oc = in_oc[s];
       XV_ASSUME((oc & MASK) == MASK && (oc == ~(uint64_t)0 || oc < cyc));
-      q->_data[slot] = in_safe[d] ? oc : (oc ^ N);
+      q->_data[s] = in_safe[s] ? oc : (oc ^ N);
     }
   }
 }
@@ -71,9 +81,11 @@ static _Bool represents(const struct scq* q, const struct ring_abs* a, uint64_t*
   uint64_t gap = T - H - a->cnt; *gapout = gap;
   if (!fin && gap != 0) return 0;
   if (H >= MAXPOS + 64 || gap > (uint64_t)G + 64) return 0;
-  for (unsigned d = 0; d < N; d++) {
-    index_t pos2 = (H + d) << 1, slot = scq_remap_index(pos2, rs, N), cyc = pos2 | MASK;
-    uint64_t e = q->_data[slot], ec = e | MASK;
+  for (unsigned s = 0; s < N; s++) {
+    unsigned d = (unsigned)((pos_of_slot(s) - H) & (N - 1));
+    index_t pos2 = (H + d) << 1, cyc = pos2 | MASK;
+    XV_MODEL_ASSERT("represents.slot", scq_remap_index(pos2, rs, N) == s);
+    uint64_t e = q->_data[s], ec = e | MASK;
     if (d < a->cnt) { if (ec != cyc) return 0; if ((e & (N - 1)) != a->vals[d]) return 0; }
     else { if ((e & (N - 1)) != N - 1) return 0; if (!(ec == ~(uint64_t)0 || ec < cyc)) return 0; }
   }
@@ -117,7 +129,7 @@ void h_init_first_empty(void) { struct scq q; havoc_ring(&q); scq_ctor_first_emp
 
 /* ------------------------------------------------------------------ enqueue */
 void h_enq(void) {
-  struct scq q; struct ring_abs a, b; havoc_ring(&q); havoc_inputs();
+  struct scq q; struct ring_abs a, b; havoc_ring(&q); havoc_inputs(); in_op = 0;
   XV_ASSUME(in_cnt < CAP);                      /* requires: the index being enqueued is outside the ring */
   build(&q); abs_of_inputs(&a); b = a;
   in_v = nondet_u64(); XV_ASSUME(in_v < CAP);
@@ -139,7 +151,7 @@ void h_enq(void) {
 
 /* ------------------------------------------------------------------ dequeue (+ catchup) */
 void h_deq(void) {
-  struct scq q; struct ring_abs a, b; havoc_ring(&q); havoc_inputs();
+  struct scq q; struct ring_abs a, b; havoc_ring(&q); havoc_inputs(); in_op = 1;
   build(&q); abs_of_inputs(&a); b = a;
   uint64_t out0 = nondet_u64(), out = out0, outa = out0;
   _Bool r = scq_dequeue(&q, &out, CAP, RS());
